@@ -465,7 +465,10 @@ func (e *Engine) ExecMgmtCmd(module string, cmd string, args any) error {
 	if err != nil {
 		return err
 	}
-	ch := make(chan error)
+	// Buffered: if Express fails after the Interest was put into the PIT, nobody
+	// waits for the result, and the timeout callback (which runs with the PIT
+	// lock held) must not block on it.
+	ch := make(chan error, 1)
 	err = e.Express(interest, func(args ndn.ExpressCallbackArgs) {
 		if args.Result == ndn.InterestResultNack {
 			ch <- fmt.Errorf("nack received: %v", args.NackReason)
